@@ -100,6 +100,9 @@ class SMMapSetMeta:
             elif s[0] == "#FGCHANGES":
                 self.fg_changes = s[1].strip()
 
+        if stops is None:
+            # A file without a #STOPS tag has no stops
+            stops = SMStopList([])
         return bcs_s, stops
 
     @staticmethod
